@@ -40,7 +40,7 @@ def requirements(tier):
     r = {f"ladder_judged:{n}": 20 for n in NAMES}
     r.update({"homogeneity_rungs_checked": 5000, "finite_rungs_checked": 8000, "rejections_checked": 200, "history_independence_checked": 300,
               "equal_seed_checked": 100, "contract_evaluations_aggregator": 10000, "w_m_equals_1": 30, "w_n_equals_1": 30, "w_m_gt_n": 100,
-              "w_zero_or_duplicate_rows": 100, "w_fine_rung_above_norm_eps_with_conflict": 50, "w_float32": 300, "w_seed_changes_result": 10})
+              "w_zero_or_duplicate_rows": 100, "w_fine_rung_above_norm_eps_with_conflict": 50, "w_float32": 300, "w_seed_changes_result": 10, "w_history_call_in_other_dtype": 200})
     if tier == "thorough":
         r["repo_tests_contract_evaluations"] = 1000
     return r
@@ -227,12 +227,14 @@ def gen_history(rng, i):
     n = int(rng.integers(1, 7))
     desc = E.config(rng, name, m, dname)
     J, _ = M.gen(rng, m=m, n=n)
-    hist = []
+    hist, hist_dtypes = [], []
     for _ in range(int(rng.integers(1, 6))):
         same_shape = rng.random() < 0.5
         H, _ = M.gen(rng, m=m, n=n if same_shape else int(rng.integers(1, 7)))
         hist.append(H.tolist())
-    return {"J": J.tolist(), "history": hist, "agg": desc, "dtype": dname, "seed": int(rng.integers(1 << 20))}
+        # earlier calls may be in ANOTHER dtype than the call under test (they may be rejected for it: that is fine)
+        hist_dtypes.append(dname if rng.random() < 0.6 else ("float32" if dname == "float64" else "float64"))
+    return {"J": J.tolist(), "history": hist, "history_dtypes": hist_dtypes, "agg": desc, "dtype": dname, "seed": int(rng.integers(1 << 20))}
 
 
 def check_history(case, ctx):
@@ -240,12 +242,14 @@ def check_history(case, ctx):
     name = desc["name"]
     Jt = to_t(np.array(case["J"], dtype=np.float64).reshape(len(case["J"]), -1), dname)
     used = aggs.make(desc, DT[dname])
+    hd = case.get("history_dtypes") or [dname] * len(case["history"])
     for k, H in enumerate(case["history"]):
         torch.manual_seed(1000 + k)
-        _, err, _ = call(used, to_t(np.array(H, dtype=np.float64).reshape(len(H), -1), dname))
+        _, err, _ = call(used, to_t(np.array(H, dtype=np.float64).reshape(len(H), -1), hd[k]))
         if err is not None:
-            ctx.not_judged("history_matrix_rejected")
-            return
+            ctx.count("obs_history_call_rejected")  # a rejected earlier call must not leave a trace either
+        if hd[k] != dname:
+            ctx.count("w_history_call_in_other_dtype")
     torch.manual_seed(case["seed"])
     o1, e1, _ = call(used, Jt)
     fresh = aggs.make(desc, DT[dname])
@@ -273,7 +277,7 @@ def check_history(case, ctx):
     ctx.sample({"agg": desc, "history_shapes": [[len(H), len(H[0])] for H in case["history"]], "J_shape": list(Jt.shape)})
 
 
-def run_repo_tests(ctx):
+def run_repo_tests(ctx, which="aggregator"):
     """Thorough tier: the repository's own tests with the contracts on; zero contract failures and > 1000 evaluations required."""
     import json, os, subprocess, sys, tempfile
     from .. import REPO, ROOT
@@ -292,11 +296,11 @@ def run_repo_tests(ctx):
             os.unlink(rep)
         except OSError:
             pass
-    ctx.count("repo_tests_contract_evaluations", r["stats"].get("aggregator_evaluations", 0))
+    ctx.count("repo_tests_contract_evaluations", r["stats"].get(f"{which}_evaluations", 0))
     ctx.notes["repo_tests_under_contracts"] = {"pytest_exit": r["exitstatus"], "stats": r["stats"], "tail": (p.stdout or "").strip().splitlines()[-1:]}
     for v in r["violations"]:
-        if v["contract"].startswith("aggregator"):
-            ctx.violation("contract:" + v["contract"] + "(repository tests)", {"aggregator": v["where"]}, v["detail"])
+        if v["contract"].startswith(which):
+            ctx.violation("contract:" + v["contract"] + "(repository tests)", {"aggregator_or_transform": v["where"]}, v["detail"])
     ctx.evaluated(n=1)
 
 
